@@ -91,7 +91,7 @@ func genCase(t *rapid.T) Case {
 	c := Case{
 		G: *g, Mode: mode, XDR: rapid.Bool().Draw(t, "xdr"),
 		Route:    rapid.IntRange(0, int(model.NumRoutes)-1).Draw(t, "route"),
-		Reader:   rapid.SampledFrom([]string{"chunks", "onebyte", "half", "dataerr", "whole", "bufio", "bufio"}).Draw(t, "reader"),
+		Reader:   rapid.SampledFrom([]string{"chunks", "onebyte", "half", "dataerr", "whole", "bufio", "bufio", "lenchunks", "lenchunks"}).Draw(t, "reader"),
 		Concat:   rapid.IntRange(1, 3).Draw(t, "concat"),
 		FailAt:   rapid.IntRange(0, 40).Draw(t, "failAt"),
 		FailHow:  rapid.IntRange(0, 3).Draw(t, "failHow"),
@@ -100,7 +100,7 @@ func genCase(t *rapid.T) Case {
 		Upper:    rapid.Bool().Draw(t, "upper"),
 		Poison:   rapid.IntRange(0, 3).Draw(t, "poison") == 0,
 	}
-	if c.Reader == "chunks" || c.Reader == "bufio" {
+	if c.Reader == "chunks" || c.Reader == "bufio" || c.Reader == "lenchunks" {
 		n := rapid.IntRange(1, 12).Draw(t, "nchunks")
 		for i := 0; i < n; i++ {
 			c.Chunks = append(c.Chunks, rapid.IntRange(1, 24).Draw(t, "chunk"))
@@ -139,6 +139,17 @@ func (r *chunkReader) Read(p []byte) (int, error) {
 		return n, io.EOF
 	}
 	return n, nil
+}
+
+// lenChunkReader is a chunkReader with a Len method that reports the size of the
+// chunk the next Read will hand out (what a ring buffer or a framed stream reports).
+type lenChunkReader struct{ chunkReader }
+
+func (r *lenChunkReader) Len() int {
+	if len(r.data) == 0 {
+		return 0
+	}
+	return min(r.sizes[r.i%len(r.sizes)], len(r.data))
 }
 
 var errInjected = errors.New("injected writer failure")
@@ -475,6 +486,10 @@ func prop(c Case) error {
 		r = iotest.DataErrReader(bytes.NewReader(stream))
 	case "chunks":
 		r = &chunkReader{data: stream, sizes: c.Chunks, withEOF: len(c.Chunks)%2 == 0}
+	case "lenchunks":
+		// a stream that also has a Len method, meaning the bytes it holds right now (the
+		// current chunk), not the bytes still to come
+		r = &lenChunkReader{chunkReader{data: stream, sizes: c.Chunks, withEOF: len(c.Chunks)%2 == 0}}
 	case "bufio":
 		// a *bufio.Reader handed over directly (what a caller reading a file or a socket
 		// has), with a buffer size of its own choosing, over a reader that splits the bytes
